@@ -315,4 +315,5 @@ def main():
     bat.finish()
 
 
-main()
+if __name__ == "__main__":
+    main()
